@@ -89,3 +89,63 @@ Proof.
   - intros a b Ha Hb. apply Hf; eapply filter_incl_in; eassumption.
   - apply filter_perm. exact Hp.
 Qed.
+
+(* ---- multiplicity as well as order: only the SET of visited dependencies matters.  A dependency
+   may be visited any number of times (a type used by several fields; HashSet de-duplication by
+   the generated code is by Rust type, not by name): first-wins or last-wins de-duplication, or a
+   visiting order, cannot show as long as equal names mean the same dependency. ---- *)
+Theorem dedup_set_free l l' : name_functional l -> (forall x, In x l <-> In x l') ->
+  fold_left (fun m e => dep_insert e m) l [] = fold_left (fun m e => dep_insert e m) l' [].
+Proof.
+  intros Hf Hs.
+  assert (Hf' : name_functional l').
+  { intros a b Ha Hb. apply Hf; apply Hs; assumption. }
+  apply sorted_same_elements_eq.
+  - apply fold_dep_insert_sorted. constructor.
+  - apply fold_dep_insert_sorted. constructor.
+  - intros x. rewrite !fold_dep_insert_elements by (cbn [app]; assumption). cbn [In].
+    split; intros [[]|H]; right; apply Hs; exact H.
+Qed.
+
+Theorem import_groups_set_free : forall R esm cwd t out_dir deps deps',
+  name_functional deps -> (forall x, In x deps <-> In x deps') ->
+  import_groups R esm cwd t out_dir deps = import_groups R esm cwd t out_dir deps'.
+Proof.
+  intros R esm cwd t out_dir deps deps' Hf Hs. unfold import_groups.
+  destruct (out_path R t); [|reflexivity].
+  rewrite (dedup_set_free (filter (fun e => negb (rty_eqb (fst (fst e)) t)) deps) (filter (fun e => negb (rty_eqb (fst (fst e)) t)) deps')).
+  - reflexivity.
+  - intros a b Ha Hb. apply Hf; eapply filter_incl_in; eassumption.
+  - intros x. rewrite !filter_In. rewrite Hs. reflexivity.
+Qed.
+
+(* export_to_string::<T>() when the generated visit_dependencies() reports `deps` (in whatever
+   order, with whatever repetitions) *)
+Definition export_string_with (is_upper is_alnum is_numeric : char -> bool) (R : env) (esm : bool) (cwd : list str)
+    (fuel : nat) (t : rty) (default_dir : str) (deps : list dep) : outcome str :=
+  match out_path R (without_generics t) with
+  | None => Err err_cannot_export
+  | Some _ =>
+      bind (import_groups R esm cwd (without_generics t) default_dir deps) (fun m =>
+      bind (gen_decl is_upper is_alnum is_numeric R fuel t) (fun decl =>
+      Ok (NOTE ++ (render_imports m ++ [nl]) ++ decl ++ [nl])))
+  end.
+
+Lemma export_string_is_with iu ia inum R esm cwd fuel t dir deps :
+  dependencies_of R fuel (without_generics t) = Ok deps ->
+  export_string iu ia inum R esm cwd fuel t dir = export_string_with iu ia inum R esm cwd fuel t dir deps.
+Proof.
+  intros Hd. unfold export_string, export_string_with, gen_imports. rewrite Hd.
+  destruct (out_path R (without_generics t)); [|reflexivity].
+  cbn [bind]. destruct (import_groups R esm cwd (without_generics t) dir deps); reflexivity.
+Qed.
+
+(* the whole exported text is the same for every visiting order and multiplicity *)
+Theorem export_string_visit_free iu ia inum R esm cwd fuel t dir deps deps' :
+  dependencies_of R fuel (without_generics t) = Ok deps ->
+  name_functional deps -> (forall x, In x deps <-> In x deps') ->
+  export_string_with iu ia inum R esm cwd fuel t dir deps' = export_string iu ia inum R esm cwd fuel t dir.
+Proof.
+  intros Hd Hf Hs. rewrite (export_string_is_with _ _ _ _ _ _ _ _ _ _ Hd).
+  unfold export_string_with. rewrite (import_groups_set_free R esm cwd _ dir deps deps' Hf Hs). reflexivity.
+Qed.
